@@ -70,34 +70,38 @@ def asStrOf (o : Opts) (h : FieldHdr) : Bool :=
 /-- the member names `recomp` tries for an index entry, in this order -/
 def candidates (k name : Bytes) : List Bytes := [k, name, lowerFirst name, asciiLowerAll (lowerFirst name)]
 
+/-- `c` is the index key of some field of the struct (`im[c]` exists) -/
+def isIdxKey (fs : List (FieldHdr × GoType)) (c : Bytes) : Bool := fs.any fun ht => idxKeyOf ht.1 == some c
+
 /-- The member names `recomp` actually TRIES for a field, given what the encoder does with it, in the
 ORDER of the source (`fieldDatum`: the index key — the json tag name — first, then the Go field name,
 its first letter lowered, all lowered; generated fact `altRecompMemberLookups`): the walk stops at the
 first name under which the tree has a member. A field that is always written (no `omitempty`) is
 found under its key `pk`, so only `pk` and the names BEFORE it are tried; a field that may be absent
-(`omitempty`, or never written) falls through all four. -/
-def triedKeys (o : Opts) (h : FieldHdr) (k : Bytes) : List Bytes :=
-  match planKeyOf o h with
-  | some pk => if tagOmitOf o h then candidates k h.name else pk :: (candidates k h.name).takeWhile (· != pk)
-  | none => candidates k h.name
+(`omitempty`, or never written) falls through all four. Since /repo 1029e85 a fallback spelling that is
+the index key of ANOTHER field is not tried at all (`claimedName`): it is filtered out here. -/
+def triedKeys (o : Opts) (fs : List (FieldHdr × GoType)) (h : FieldHdr) (k : Bytes) : List Bytes :=
+  (match planKeyOf o h with
+    | some pk => if tagOmitOf o h then candidates k h.name else pk :: (candidates k h.name).takeWhile (· != pk)
+    | none => candidates k h.name).filter fun c => c == k || !isIdxKey fs c
 
 /-- field `p` of `fs` is found again: the key the encoder writes it under is one of the names the
-recomposer tries for it; no OTHER field's key and not the create key is among the names the decoder
-tries for it (`triedKeys`: stated over the DECODER's lookups, in their order); no other field is filed
-under the same index key; no `,string` option in force; not embedded -/
+recomposer tries for it (`triedKeys`: stated over the DECODER's lookups, in their order, minus the
+spellings another field's index key claims); no OTHER field's key and not the create key is among
+those names; no other field is filed under the same index key; not embedded -/
 def fieldOKAt (o : Opts) (fs : List (FieldHdr × GoType)) (h : FieldHdr) (p : Nat) : Bool :=
-  !h.embedded && !asStrOf o h &&
+  !h.embedded &&
   match idxKeyOf h with
   | none => true
   | some k =>
     (match planKeyOf o h with
-      | some pk => (candidates k h.name).contains pk
+      | some pk => (candidates k h.name).contains pk && (triedKeys o fs h k).contains pk
       | none => true) &&
-    (o.createKey.isEmpty || !(triedKeys o h k).contains o.createKey) &&
+    (o.createKey.isEmpty || !(triedKeys o fs h k).contains o.createKey) &&
     fs.zipIdx.all fun hq =>
       hq.2 == p ||
         ((match planKeyOf o hq.1.1 with
-          | some pk' => !(triedKeys o h k).contains pk'
+          | some pk' => !(triedKeys o fs h k).contains pk'
           | none => true) && idxKeyOf hq.1.1 != some k)
 
 /-- every field of the struct is found again (see `fieldOKAt`) -/
@@ -120,11 +124,17 @@ def zeroLike : GoType → GoVal → Bool
   | .iface, .nilIface => true
   | _, _ => false
 
+def isFloatT : GoType → Bool
+  | .float _ => true
+  | _ => false
+
 /-- a field that is both written (under `o`) and indexed must satisfy `chk`; any other field (unexported,
-`"-"`) cannot come back and must hold a zero value -/
+`"-"`) cannot come back and must hold a zero value. The `,string` option in force (tags in use) is
+covered for bool and integer fields (and ignored by both sides for every non-scalar type); a float
+field written as a string is NOT covered (`strconv.ParseFloat` of the text: `floatFromString`). -/
 def fieldChk (o : Opts) (chk : GoType → GoVal → Bool) (h : FieldHdr) (t : GoType) (x : GoVal) : Bool :=
   match idxKeyOf h, planKeyOf o h with
-  | some _, some _ => chk t x
+  | some _, some _ => !(asStrOf o h && isFloatT t) && chk t x
   | _, _ => zeroLike t x
 
 def fieldsRT (o : Opts) (chk : GoType → GoVal → Bool) : List (FieldHdr × GoType) → List GoVal → Bool
@@ -147,7 +157,7 @@ def bytesAsArray (o : Opts) : Bool :=
 integers fit their slot, pointers point to structs, scalars or containers (not to pointers or
 interfaces), arrays have their length, every struct type satisfies `structOK o`, unexported and `"-"`
 fields hold zero values, a `[]byte` only under `BytesAsArray`. Not covered (the predicate is `false`):
-`interface{}` slots, embedded fields, the `,string` tag option. -/
+`interface{}` slots, embedded fields, the `,string` tag option on a float field. -/
 def rtOK (o : Opts) : Nat → GoType → GoVal → Bool
   | 0, _, _ => false
   | n + 1, t, v =>
